@@ -104,6 +104,10 @@ class _Gen:
         self.consts = {}  # (mesh, shape) -> [ids]
         self.coefs = {}  # (mesh, elem) -> [ids]
         self.indices = []
+        # some recipes use a user subclass of Constant for part of their constants, the first one created included
+        # (a subclass is counted with Constant: which of the two kinds a process meets first must not matter)
+        subconst = rng.random() < 0.3
+        seen_const = False
         for t in tasks:
             if t[0] == "mesh":
                 self._mesh(t[1])
@@ -112,7 +116,13 @@ class _Gen:
                 P.nown["Index"] += 1
             elif t[0] == "const":
                 m = self._mesh(t[1])
-                self.consts.setdefault((t[1], tuple(t[2])), []).append(P.emit("const", [m], shape=list(t[2])))
+                sub = subconst and (not seen_const or rng.random() < 0.5)
+                seen_const = True
+                if sub:
+                    self.features.add("subclassed-constant")
+                    self.consts.setdefault((t[1], tuple(t[2])), []).append(P.emit("const", [m], shape=list(t[2]), sub=True))
+                else:
+                    self.consts.setdefault((t[1], tuple(t[2])), []).append(P.emit("const", [m], shape=list(t[2])))
                 P.nown["Constant"] += 1
             elif t[0] == "coef":
                 s = self._space(t[1], t[2])
@@ -416,6 +426,8 @@ def gen_conf(rng, kind, boundary, nown):
     `boundary`; 'noise' unrelated objects in between; 'shift+noise' both.
     """
     conf = {"start": {k: 0 for k in COUNTED}, "noise": None}
+    if "natural" in kind:
+        conf["start"] = None
     if "shift" in kind:
         for k in COUNTED:
             n = nown.get(k, 0)
@@ -439,8 +451,25 @@ class HarnessError(Exception):
     pass
 
 
+_SUBCONST = []
+
+
+def _sub_constant():
+    """A user subclass of Constant (as the repository's test_strip_forms.py has one), defined once per process."""
+    if not _SUBCONST:
+        import ufl
+
+        class VfConstant(ufl.Constant):
+            """Constant carrying nothing more: stands for any user subclass."""
+
+        _SUBCONST.append(VfConstant)
+    return _SUBCONST[0]
+
+
 def set_counters(start):
     """Put the global creation counters where `start` says (state named in the property anchors)."""
+    if start is None:
+        return  # history kind 'natural': the counters are whatever this process has made of them so far
     import ufl
     from ufl.classes import Coefficient, Constant, Index, Label
     from ufl.domain import Mesh
@@ -575,7 +604,7 @@ def build(recipe, conf):
             v = ufl.Coefficient(a[0])
             own["Coefficient"].append(v)
         elif o == "const":
-            v = ufl.Constant(a[0], tuple(p["shape"]))
+            v = (_sub_constant() if p.get("sub") else ufl.Constant)(a[0], tuple(p["shape"]))
             own["Constant"].append(v)
         elif o == "index":
             v = ufl.Index()
